@@ -185,6 +185,18 @@ func printArgs(sb *strings.Builder, n *N, depth int) {
 	writePos(true)
 }
 
+// printRecv prints a chain receiver; a receiver ending in a bare operator property
+// (`[..]$(0)+`) is parenthesised, otherwise `+` and a following `=.` lex as `+=`.
+func printRecv(sb *strings.Builder, n *N, depth int) {
+	if n.K == KPropC && len(n.L) == 0 && len(n.Kw) == 0 && (n.Str == "+" || n.Str == "-" || n.Str == "*") {
+		sb.WriteString("(")
+		printExpr(sb, n, depth)
+		sb.WriteString(")")
+		return
+	}
+	printExpr(sb, n, depth)
+}
+
 func printExpr(sb *strings.Builder, n *N, depth int) {
 	switch n.K {
 	case KSlot:
@@ -337,7 +349,7 @@ func printExpr(sb *strings.Builder, n *N, depth int) {
 		printArgs(sb, n, depth)
 		sb.WriteString(")")
 	case KPropC:
-		printExpr(sb, n.A, depth)
+		printRecv(sb, n.A, depth)
 		sb.WriteString(n.Chain.String())
 		if n.Chain.Arg != nil {
 			sb.WriteString("(")
@@ -351,7 +363,7 @@ func printExpr(sb *strings.Builder, n *N, depth int) {
 			sb.WriteString(")")
 		}
 	case KLitC:
-		printExpr(sb, n.A, depth)
+		printRecv(sb, n.A, depth)
 		sb.WriteString(n.Chain.String())
 		if n.Chain.Arg != nil {
 			sb.WriteString("(")
@@ -360,7 +372,7 @@ func printExpr(sb *strings.Builder, n *N, depth int) {
 		}
 		printExpr(sb, n.B, depth)
 	case KTry:
-		printExpr(sb, n.A, depth)
+		printRecv(sb, n.A, depth)
 		sb.WriteString(".try.")
 		printExpr(sb, n.B, depth)
 		sb.WriteString("." + n.Str)
@@ -370,7 +382,7 @@ func printExpr(sb *strings.Builder, n *N, depth int) {
 			sb.WriteString(")")
 		}
 	case KVarC:
-		printExpr(sb, n.A, depth)
+		printRecv(sb, n.A, depth)
 		sb.WriteString(n.Chain.String())
 		if n.Chain.Arg != nil {
 			sb.WriteString("(")
